@@ -1192,11 +1192,21 @@ func init() {
 			for _, k := range []string{"createcoin", "createtoken", "recreatecoin", "recreatetoken", "editcoinowner", "mint", "burn", "createpool", "addliq", "remliq"} {
 				p.W[k] = 12
 			}
-			return baseScenario("C22", r, seed, chain, tier, p, func(g *GenCfg, n *NodeCfg) {
+			sc := baseScenario("C22", r, seed, chain, tier, p, func(g *GenCfg, n *NodeCfg) {
 				for i := 0; i < 3; i++ {
 					_ = i
 				}
 			})
+			// the node is restarted now and then: the registry (next id, versions, owners) it reloads must carry on
+			if r.Intn(3) == 0 {
+				sc.Params = map[string]int64{"main_restart": 1}
+				for i := range sc.Blocks {
+					if i > 0 && r.Intn(6) == 0 {
+						sc.Blocks[i].Restart = true
+					}
+				}
+			}
+			return sc
 		},
 		Monitors: func(sc *Scenario) []Monitor { return []Monitor{&MonC22{}} },
 		Distinct: func(w *World) []string {
